@@ -305,10 +305,10 @@ _reg("C15", c15.run, translator=("T1", "T3", "T16"), module="NirVerif.Properties
                 "`with` usage the translator extracts from serialization.py (T3); changing them breaks `modes`.",
      level_note="Lean kernel + T3; OS file-handle behaviour, truncation by libhdf5 and caching effects are outside the model "
                 "and exhibited only by the correspondence/oracle run on a real path.")
-_reg("C16", c16.run,
+_reg("C16", c16.run, translator=("T1", "T16"), module="NirVerif.Properties.C16Generated",
      theorems=["NirVerif.C16.leaf_back", "NirVerif.C16.carried", "NirVerif.C16.no_extra_keys", "NirVerif.C16.inert_members",
                "NirVerif.C16.inert_inference", "NirVerif.C16.inert_infer_types", "NirVerif.C16.inert_construction",
-               "NirVerif.C16.inert_step", "NirVerif.C16.inert_check"],
+               "NirVerif.C16.inert_step", "NirVerif.C16.inert_check", "NirVerif.C16.no_shared_metadata_generated"],
      rule="Graphs with and without metadata trees (depth 0..4, unicode keys/strings, empty strings, bools, ints, floats, "
           "arrays, nested and empty dicts) on random subsets of nodes and sub-graphs: metadata compared after read, the raw "
           "HDF5 trees outside */metadata compared with and without metadata, node types / type check / inference compared.",
@@ -337,11 +337,11 @@ _reg("C17", c17.run, translator=("T1", "T16"), module="NirVerif.Properties.C17Ge
                 "graph or hands it to code outside a table of readers, and nothing under nir/ keeps state between calls "
                 "(observers_generated, no_shared_state_generated).",
      level_note="Lean kernel + T16 (effect analysis of the observer bodies, trusted as written); hand-written models of to_dict/from_dict/write/read and of the h5py contract (create_dataset conversions, item[()], link names, iteration order), validated against the real library and real files on every run.")
-_reg("C18", c18.run, translator=("T1", "T2"), module="NirVerif.Properties.C18Depth",
+_reg("C18", c18.run, translator=("T1", "T2", "T20"), module="NirVerif.Properties.C18Generated",
      theorems=["NirVerif.C18.whitelist_documented", "NirVerif.C18.closed", "NirVerif.C18.closed_nonstring",
                "NirVerif.C18.no_type", "NirVerif.C18.mandatory_table", "NirVerif.C18.construct_missing",
                "NirVerif.C18.construct_extra", "NirVerif.C18.fromDict_generic", "NirVerif.C18.closed_at_depth",
-               "NirVerif.C18.closed_child"],
+               "NirVerif.C18.closed_child", "NirVerif.C18.fromDict_generated", "NirVerif.C18.generic_classes_generated"],
      rule="Every public and private name of nir, nir.ir, nir.ir.graph, nir.serialization and builtins, case/whitespace "
           "variants of the 18 whitelisted names and random unicode strings as `type` (full and bare dictionaries, top level "
           "and nested, via dict and via file); every single mandatory-field deletion and a non-field insertion for every "
